@@ -1673,7 +1673,7 @@ static int process_enum(fb_parser_t *P, fb_compound_type_t *ct)
         }
         if (!member->value.type && !first) {
             if (index.type == vt_uint) {
-                if (ct->type.st == fb_long && index.u == UINT64_MAX) {
+                if (ct->type.st == fb_ulong && index.u == UINT64_MAX) {
                     /* Not captured by range check. */
                     error_sym(P, sym, "64-bit unsigned int overflow");
                 }
